@@ -364,6 +364,111 @@ func runC13(r *vk.Run) {
 			c.Sample("sampled", map[string]any{"query": chainText(vals, ops)})
 		}
 	})
+	// chains mixing vector(p) operands with scalar literals (`10 - vector(8) / 2`): same conventional
+	// reading; chains in which two literals would meet directly (folded / unsupported) are skipped
+	arithCmp := c13Ops[:12]
+	r.Phase("scalars", r.N(3000, 300000), func(c *vk.Case) {
+		rng := c.Rng
+		n := rng.Range(2, 4)
+		vals := append([]float64(nil), vk.Pick(rng, tuples)[:n]...)
+		vk.Shuffle(rng, vals)
+		isLit := make([]bool, n)
+		nvec := 0
+		for i := range isLit {
+			isLit[i] = rng.Bool()
+			if !isLit[i] {
+				nvec++
+			}
+		}
+		if nvec == 0 {
+			isLit[rng.Intn(n)] = false
+		}
+		ops := make([]string, n-1)
+		for i := range ops {
+			ops[i] = vk.Pick(rng, arithCmp)
+		}
+		// operand text, optionally one parenthesised adjacent pair
+		paren := -1
+		if n >= 3 && rng.Bool() {
+			paren = rng.Intn(n - 1)
+		}
+		operand := func(i int) string {
+			if isLit[i] {
+				return fnum(vals[i])
+			}
+			return "vector(" + fnum(vals[i]) + ")"
+		}
+		// build the conventional tree over the (possibly reduced) chain and check no literal meets a literal
+		type node struct {
+			lit bool
+			v   ov
+		}
+		var evalTree func(t *c13Tree, vs []node, os []string, bad *bool) node
+		evalTree = func(t *c13Tree, vs []node, os []string, bad *bool) node {
+			if t.op < 0 {
+				return vs[t.leaf]
+			}
+			l, rr := evalTree(t.l, vs, os, bad), evalTree(t.r, vs, os, bad)
+			if l.lit && rr.lit {
+				*bad = true
+			}
+			return node{lit: false, v: c13Apply(os[t.op], l.v, rr.v, mode)}
+		}
+		var parts []string
+		var rnodes []node
+		var rops []string
+		for i := 0; i < n; i++ {
+			if i == paren+1 && paren >= 0 {
+				continue
+			}
+			last := i
+			if i == paren {
+				if isLit[i] && isLit[i+1] {
+					c.Count("discarded_literal_meets_literal", 1)
+					return
+				}
+				parts = append(parts, "("+operand(i)+" "+ops[i]+" "+operand(i+1)+")")
+				rnodes = append(rnodes, node{lit: false, v: c13Apply(ops[i], ov{true, vals[i]}, ov{true, vals[i+1]}, mode)})
+				last = i + 1
+			} else {
+				parts = append(parts, operand(i))
+				rnodes = append(rnodes, node{lit: isLit[i], v: ov{true, vals[i]}})
+			}
+			if last < n-1 {
+				parts = append(parts, ops[last])
+				rops = append(rops, ops[last])
+			}
+		}
+		text := strings.Join(parts, " ")
+		badConv, badDef := false, false
+		want := evalTree(climb(rops, false), rnodes, rops, &badConv).v
+		wantDefect := evalTree(climb(rops, true), rnodes, rops, &badDef).v
+		if badConv || badDef || len(rnodes) == 1 && rnodes[0].lit {
+			c.Count("discarded_literal_meets_literal", 1)
+			return
+		}
+		got, err := c13Engine(c, text)
+		det := map[string]any{"query": text, "conventional": want.String(), "right_assoc_model": wantDefect.String(), "engine": got.String()}
+		if err != nil {
+			det["error"] = err.Error()
+			c.Fail("", "chain with scalars failed: "+text+": "+err.Error(), det)
+			return
+		}
+		if !ovEqual(got, want) {
+			key := ""
+			if ovEqual(got, wantDefect) {
+				key = "F13"
+			}
+			c.Fail(key, fmt.Sprintf("%s = %s, conventional reading gives %s", text, got, want), det)
+			return
+		}
+		c.Count("scalar_chains", 1)
+		c.Nontrivial("s:" + text)
+		if c.Idx < 3 {
+			c.Sample("scalars", det)
+		}
+	})
+	r.Require("scalar_chains", 800)
 	r.Require("chains", 400)
 	r.Require("nontrivial_chains", 200)
 	r.Require("parenthesisations", 400)
